@@ -95,6 +95,9 @@ func (r *Result) fault(kind string, configured, fired int) {
 	r.FaultsCfg[kind] += configured
 }
 
+// ProbeFreeRun marks runs whose schedule was abandoned (see Sched.Run).
+const ProbeFreeRun = "scheduler-fell-back-to-free-running"
+
 func (r *Result) absorb(s *Sched) {
 	r.Events += s.Events
 	r.Yields += s.Yields
@@ -103,7 +106,10 @@ func (r *Result) absorb(s *Sched) {
 	r.Trace = r.Trace*1099511628211 ^ s.Trace
 	r.SchedSig = r.SchedSig*1099511628211 ^ s.SchedSig
 	if s.FreeRuns > 0 {
-		r.probeN("scheduler-fell-back-to-free-running(lock-invisible-to-the-scheduler-held-across-a-yield)", s.FreeRuns)
+		r.probeN(ProbeFreeRun, s.FreeRuns)
+	}
+	if s.UnderLockSw > 0 {
+		r.probeN("task-parked-inside-a-critical-section", s.UnderLockSw)
 	}
 	if s.ForeignEvents > 0 {
 		r.probe("seam-events-from-goroutines-started-by-the-code-under-test")
